@@ -12,7 +12,7 @@ CHECKS = {
                      "dataset_t against the plain table the data source was filled from; explicit-state BFS over "
                      "drop/shuffle/undrop/unshuffle histories against a per-feature reference state; out-of-range index probes "
                      "and two-list pairwise generators in forked children under ASan+UBSan",
-        "level_text": "every schema of 1..2 (thorough: 1..3 over 8 representative kinds) features over 16 feature kinds plus 4 fixed "
+        "level_text": "every schema of 1..2 (thorough: length 3 over 12 of the kinds) features over 16 feature kinds plus 4 fixed "
                       "12-feature schemas x N in {1,7,8,9,17} x 6 missing-value masks x (17 targets with the identity stack + 4 further "
                       "generator stacks x 3 targets) is loaded into the real datasource_t/dataset_t; per-feature select, flatten, "
                       "targets, the feature/column bookkeeping and the select/flatten/targets iterators (4 batch sizes, 1/2/16 threads) "
@@ -39,7 +39,7 @@ CHECKS = {
             "the axes); gradient values themselves are not part of the statement",
             "flatten/targets iterators with scaling 'none' replace non-finite values by 0 (scalar_stats_t::scale, documented by the "
             "repository's check_flatten fixture): they are compared with the flattened table after the same replacement",
-            "length-3 schemas (thorough) range over 8 of the 16 kinds; thread pools of 2 and 16 workers are exercised on a thinner "
+            "length-3 schemas (thorough) range over 12 of the 16 kinds (without i16, i32, u16, u32); thread pools of 2 and 16 workers are exercised on a thinner "
             "lattice (viewsmt.* axes)",
             "where the statement is silent (undrop on a shuffled feature, unshuffle on a dropped feature, shuffle of a dropped "
             "feature) either outcome is accepted and the reference follows the implementation",
